@@ -97,13 +97,30 @@ def run(w: World, rep: Report):
     outer = [n for n in cfg.nodes if n.kind == 'for' and isinstance(n.ast.iter, ast.Name) and n.ast.iter.id == sigs_var]
     if len(outer) != 1:
         raise AnalysisError('OP_CHECK_MULTISIG: loop over the signatures not found')
-    inner = [n for n in cfg.nodes if n.kind == 'for' and isinstance(n.ast.iter, ast.Name) and n.ast.iter.id == keys_var
-             and any(a is outer[0].ast for a in cfg.ancestors(n.ast))]
+    # the inner loop is the one (nested in the signature loop) that contains the inner check; the
+    # collection it iterates is the *candidate set*
+    cs0 = w.handler_for('OP_CHECK_SIG')
+    inner = [n for n in cfg.nodes if n.kind == 'for' and isinstance(n.ast.iter, ast.Name)
+             and any(a is outer[0].ast for a in cfg.ancestors(n.ast))
+             and any(isinstance(x, ast.Call) and isinstance(x.func, ast.Name) and x.func.id == cs0.name
+                     for x in ast.walk(n.ast))]
     if len(inner) != 1:
-        raise AnalysisError('OP_CHECK_MULTISIG: inner loop over the keys not found')
+        raise AnalysisError('OP_CHECK_MULTISIG: inner loop over the candidate keys not found')
     inner = inner[0]
     sig_el = outer[0].ast.target.id
     key_el = inner.ast.target.id
+    cand_var = inner.ast.iter.id
+    # the candidate set starts as the popped keys
+    if cand_var != keys_var:
+        d0 = [d for d in cfg.defs_reaching(cand_var, outer[0])
+              if not any(a is outer[0].ast for a in cfg.ancestors(d[0].ast))]      # definitions before the loops
+        starts_ok = bool(d0) and all(how == 'assign' and isinstance(pl, ast.AST) and ast.unparse(pl) in
+                                     (keys_var, f'list({keys_var})', f'[*{keys_var}]', f'{keys_var}.copy()',
+                                      f'{keys_var}[:]') for _, how, pl in d0)
+        rep.check('C03.R1', f'functions.{fi.name}|candidates-start-as-all-keys', starts_ok, line=inner.line, file=REL,
+                  why='' if starts_ok else f'the candidate set `{cand_var}` does not start as the popped keys')
+    keys_var_orig = keys_var
+    keys_var = cand_var
     # the check call
     cs = w.handler_for('OP_CHECK_SIG')
     calls = [(n, c) for n, c in cfg.nodes_with_call(lambda c: isinstance(c.func, ast.Name) and c.func.id == cs.name)]
@@ -158,6 +175,26 @@ def run(w: World, rep: Report):
             if ev[0] == 'call' and isinstance(ev[1].func, ast.Attribute) and ev[1].func.attr == 'pop' and \
                     dotted(ev[1].func.value) == keys_var and ev[1].args:
                 removal.append(n)
+    # rebinding idiom: CAND = [k for k in CAND if k != matched]  (must filter the *current* candidates)
+    bad_rebind = ''
+    for n in cfg.nodes:
+        if n.kind == 'stmt' and isinstance(n.ast, ast.Assign) and isinstance(n.ast.targets[0], ast.Name) and \
+                n.ast.targets[0].id == keys_var and any(a is inner.ast for a in cfg.ancestors(n.ast)):
+            v = n.ast.value
+            good = False
+            if isinstance(v, ast.ListComp) and len(v.generators) == 1 and isinstance(v.generators[0].iter, ast.Name):
+                g = v.generators[0]
+                filt = [ast.unparse(c).replace(' ', '') for c in g.ifs]
+                tv = ast.unparse(g.target)
+                if g.iter.id == keys_var and any(f in (f'{tv}!={key_el}', f'{tv}isnot{key_el}', f'{key_el}!={tv}')
+                                                 for f in filt) and ast.unparse(v.elt) == tv:
+                    good = True
+                elif g.iter.id != keys_var:
+                    bad_rebind = (f'after a match the candidate set is rebuilt from `{g.iter.id}` instead of from the '
+                                  f'current candidates `{keys_var}`: keys consumed by earlier signatures become available '
+                                  f'again')
+            if good:
+                removal.append(n)
     used_sets = _used_set_idiom(cfg, inner, key_el)
     # every path from the success edge back to the outer loop head passes a removal (or used-set insertion)
     consume = removal + used_sets
@@ -165,8 +202,8 @@ def run(w: World, rep: Report):
         cfg.must_pass(s, outer[0], through_nodes=consume) or s in consume for s in succ_true)
     # and the failure edge must not consume
     rep.check('C03.R1', f'functions.{fi.name}|matched-key-consumed', ok, line=rt.line, file=REL,
-              why='' if ok else 'after a signature verifies under a key, that key stays in the candidate set: two '
-              'different signatures by one key (e.g. differing flag byte) would both be counted')
+              why='' if ok else (bad_rebind or 'after a signature verifies under a key, that key stays in the candidate '
+                                 'set: two different signatures by one key (e.g. differing flag byte) would both be counted'))
     # removal while iterating needs the break (C19.R1 idiom); the confirmed insert happens on the same edge
     conf_adds = [n for n, c in cfg.nodes_with_call(lambda c: isinstance(c.func, ast.Attribute) and c.func.attr in ('add', 'append'))
                  if any(a is inner.ast for a in cfg.ancestors(n.ast))]
